@@ -78,6 +78,14 @@ func runDesc(sc M) {
 	callStart(id, "decode:"+kind, M{"len": len(in)})
 	accepted := false
 	o, _ := guard(func() error {
+		if !done {
+			// malformed relation: also through a reader that exposes nothing but Read (allocation must not follow the length field)
+			if kind == "wincert" {
+				signature.ReadWinCertificate(onlyReader{bytes.NewReader(in)})
+			} else {
+				signature.ReadEFIVariableAuthencation2(onlyReader{bytes.NewReader(in)})
+			}
+		}
 		if kind == "wincert" {
 			rd := bytes.NewReader(in)
 			c, err := signature.ReadWinCertificate(rd)
